@@ -173,6 +173,10 @@ func (x *X) Eval(n int) { atomic.AddInt64(&x.sec.evals, int64(n)) }
 func (x *X) NonTrivial() { x.nontriv = true }
 
 // Outcome tallies an outcome class (exposes vacuity in the evidence).
+// NotExhaustive marks the section as not exhaustively covered (reported as capped / exhaustive:false, exit code
+// unaffected): the body met something it cannot enumerate soundly on this tree.
+func (x *X) NotExhaustive() { x.sec.capped = true }
+
 func (x *X) Outcome(class string) { x.OutcomeN(class, 1) }
 func (x *X) OutcomeN(class string, n int) {
 	x.sec.mu.Lock()
